@@ -16,6 +16,8 @@ TABLE = {
     "C12": ("p_c12", 1500, 40000),
     "C08": ("p_c08", 900, 30000),
     "C09": ("p_c09", 320, 8000),
+    "C10": ("p_c10", 1200, 40000),
+    "C18": ("p_c18", 1200, 40000),
 }
 
 LEVEL = {}
@@ -34,6 +36,8 @@ RULE["C11"] = "even cases: 40 direct calls each of sort_task/worker/facility/wor
 RULE["C12"] = "G-fs: FS-only DAGs of any shape (multiple heads/tails, zero work, default progress) run under worker contention so that tasks wait and the critical path grows with t (2 of 3 cases: every update_PERT_data call made by initialize() and by every step of simulate() is checked by a postcondition wrapper against an independent topological forward/backward pass); 1 of 3 cases: standalone histories of (reduce some remaining work, advance t, update); non-trivial = contains an update at t>0 after the critical path length changed"
 RULE["C08"] = "random models x random histories of 1-5 operations drawn from simulate / simulate(max_time=k)+resume / simulate(initialize_log_info=False) / backward_simulate (both flags) / reverse_log_information / initialize; all logs of all objects are enumerated by reflection (attributes named *_record_list, *_id_record, cost_list); length and last-entry checks at every 'recorded' phase, alignment check after every operation; non-trivial = history with >= 2 different kinds of operation"
 RULE["C09"] = "per model (random incl. facility-rich, double weight on FF/SF edges, chains/diamonds): reference run, then K runs under permuted ID-keyed hash assignments (quick 6, thorough 24; all n! for small n) = different set iteration orders, one run with native address hashes after allocating garbage, a second simulate() on the same object, simulate() after a random history (incl. absence edits) on the same object, and a fresh model simulated after a history on ANOTHER project (default-argument simulate, insert_absence_time_list); every 20th case runs 8 models in a fresh interpreter with a different PYTHONHASHSEED; all comparisons exact on the complete dump; mutable defaults / module globals of pDESy.model are snapshotted and compared around every case; non-trivial = model with an FF/SF edge or two tasks finishing in the same step"
+RULE["C10"] = "even cases: random models (30% automatic tasks, individual absences) under project absence lists containing step 0, consecutive steps and steps beyond the end, both flag settings, with the in-step monitor (no progress / no allocation / ABSENCE logged / zero cost at project absence steps; automatic tasks progress iff the flag is set; individually absent resources contribute and cost nothing); odd cases: differential (exact, all logs) between simulate(absence=L)+remove_absence_time_list() and simulate() on the class (no individual absences, no component-bound automatic task, flag off or no automatic task) for absence-free runs that succeed; non-trivial = >= 1 project absence step while some task is WORKING"
+RULE["C18"] = "random simulated models (40% facility-rich, half with a project absence list, 15% containing a BaseSubProjectTask) followed by 1-4 remove/insert edits with index lists drawn from {interior, step 0, last, beyond the end, duplicates of present steps, empty, unsorted, mixed}; every third case is insert-then-remove on an absence-free result compared with the logs before; after each edit every log (reflection) must have changed by the same amount and equal project.time, inserted steps must be zero-cost / no-work; non-trivial = an interior index edited on a run with >= 1 placement"
 # minimal number of non-trivial cases / monitor evaluations for a conclusive run: (counter, quick, thorough)
 FLOORS = {
     "C01": [("C01.transitions", 2000, 50000), ("C01.nonFS_active", 100, 3000)],
@@ -45,6 +49,8 @@ FLOORS = {
     "C12": [("C12.updates", 10000, 300000), ("C12.updates_after_cpl_change", 500, 15000)],
     "C08": [("C08.length_checks", 100000, 3000000), ("C08.entry_checks", 50000, 1500000), ("C08.ops", 1500, 50000)],
     "C09": [("C09.comparisons", 2000, 100000), ("C09.distinct_set_orders", 800, 40000), ("C09.fresh_process_runs", 60, 1500)],
+    "C10": [("C10.absence_task_checks", 5000, 150000), ("C10.equivalence_comparisons", 300, 10000), ("C10.individual_absence_checks", 50, 1500)],
+    "C18": [("C18.edits", 1500, 50000), ("C18.log_delta_checks", 50000, 1500000), ("C18.roundtrip_comparisons", 150, 5000)],
     "C06": [("C06.pairs_examined", 1000, 30000), ("C06.none_checks", 1000, 30000)],
     "C07": [("C07.resource_step_checks", 20000, 500000)],
     "C13": [("C13.moves", 300, 10000), ("C13.site_checks", 300, 10000)],
